@@ -79,8 +79,8 @@ def isoMassU (ms : MassState Float) (z a : Nat) : Option (Option Float) :=
 def qEl (st : St) (ms : MassState Float) (z : Nat) : String :=
   let m := elMassV ms z
   let rho := elDensity st.dens z
-  let nd := elDerived (numberDensityVal na) rho m
-  let dist := elDerived (interatomicDistanceVal na) rho m
+  let nd := elNumberDensity na rho m
+  let dist := elInteratomicDistance na rho m
   s!"{showOO m} {showOO (elMassU ms z)} {showOO rho} {showOO nd} {showOO dist}"
 
 def showX : Option Float → String
@@ -135,7 +135,7 @@ def efF : Float :=
 
 def nsfEnv (st : St) (ms : MassState Float) : NsfEnv Float :=
   { symOf := symOf, zOf := zOf
-    nd := fun z => ((elDerived (numberDensityVal na) (elDensity st.dens z) (elMassV ms z)).getD none)
+    nd := fun z => ((elNumberDensity na (elDensity st.dens z) (elMassV ms z)).getD none)
     hasIso := fun z a => ms.hasIsotope z a
     ab175 := (ms.isoAbOf 71 175).map (·.1)
     ab176 := (ms.isoAbOf 71 176).map (·.1)
